@@ -406,6 +406,9 @@ theorem procHdr_masked {ctx : Ctx} {loc : Env} {h : Hdr} {x : List Field}
 
 /-! ## no empty aggregators -/
 
+theorem Tree.isNil_of_ne {f : Tree} (h : f ≠ .nil) : f.isNil = false := by
+  cases f <;> simp_all [Tree.isNil]
+
 theorem noEmptyAgg_append (a b : Tree) : noEmptyAgg (a ++ b) = (noEmptyAgg a && noEmptyAgg b) := by
   induction a with
   | nil => simp [noEmptyAgg]
@@ -427,9 +430,7 @@ theorem aggOut_noEmptyAgg (i : Info) (k : Out) (h : noEmptyAgg k.f = true) : noE
   · have : aggOut i k = ⟨k.err, .nil, k.ev⟩ := by unfold aggOut; rw [hf]
     rw [this]; rfl
   · rw [aggOut_of_ne i k hf]
-    cases hk : k.f with
-    | nil => exact absurd hk hf
-    | _ => rw [hk] at h; simp [noEmptyAgg, Tree.isNil, h]
+    simp [noEmptyAgg, Tree.isNil_of_ne hf, h]
 
 /-- In the role tree as the code stores it (iterator nodes included) no aggregator has an empty `Roles`. -/
 theorem proc_noEmptyAgg (t : Tmpl) : ∀ (ctx : Ctx) (loc : Env), noEmptyAgg (proc ctx loc t).f = true := by
@@ -470,9 +471,7 @@ theorem idealAgg_ok (i : Info) (k : IOut) (h : noEmptyAgg k.f = true ∧ noIter 
   · have : idealAgg i k = ⟨k.err, .nil⟩ := by unfold idealAgg; rw [hf]
     rw [this]; exact ⟨rfl, rfl⟩
   · rw [idealAgg_of_ne i k hf]
-    cases hk : k.f with
-    | nil => exact absurd hk hf
-    | _ => rw [hk] at h; simp [noEmptyAgg, noIter, Tree.isNil, h.1, h.2]
+    simp [noEmptyAgg, noIter, Tree.isNil_of_ne hf, h.1, h.2]
 
 /-- The ideal loader never leaves an empty aggregator and shows no iterator nodes. -/
 theorem ideal_wf (t : Tmpl) : ∀ (ctx : Ctx) (loc : Env),
@@ -503,7 +502,7 @@ theorem ideal_wf (t : Tmpl) : ∀ (ctx : Ctx) (loc : Env),
       induction vals with
       | nil => exact ⟨rfl, rfl⟩
       | cons a as iha =>
-        simp only [List.foldr_cons, IOut.seq, noEmptyAgg_append, noIter_append, iha.1, iha.2, (ihb ctx _).1, (ihb ctx _).2,
+        simp only [List.foldr_cons, noEmptyAgg_append, noIter_append, iha.1, iha.2, (ihb ctx _).1, (ihb ctx _).2,
           Bool.and_true, and_self]
 
 @[simp] theorem Events.or_hollow (a b : Events) : (a.or b).hollow = (a.hollow || b.hollow) := rfl
@@ -519,10 +518,7 @@ theorem aggOut_flat (i : Info) (k : Out) (hh : (aggOut i k).ev.hollow = false)
     have hne : k.f.flatten ≠ .nil := by
       intro hc; rw [flatten_nil_iff] at hc; simp [hc] at hh
     have hk := h hh.1
-    simp only [Tree.flatten, noEmptyAgg, hk, Bool.and_true]
-    cases hfl : k.f.flatten with
-    | nil => exact absurd hfl hne
-    | _ => rfl
+    simp [Tree.flatten, noEmptyAgg, hk, Tree.isNil_of_ne hne]
 
 /-- Seen through `GetRoles` (iterators transparent) no aggregator is empty, PROVIDED no
     aggregator was kept whose only children are iterators that yielded nothing. -/
@@ -573,5 +569,193 @@ theorem proc_flat_noEmptyAgg (t : Tmpl) : ∀ (ctx : Ctx) (loc : Env),
         simp only [iterOut, if_true] at hk ⊢
         simp [Tree.flatten, hfold vals hk]
       | false => simp [iterOut, Tree.flatten, noEmptyAgg]
+
+/-! ## iterators -/
+
+theorem fold_f (ctx : Ctx) (var : String) (body : Tmpl) (vals : List String) :
+    (vals.foldr (fun v acc => (proc ctx [(var, v)] body).seq acc) Out.empty).f =
+      vals.foldr (fun v acc => (proc ctx [(var, v)] body).f ++ acc) .nil := by
+  induction vals with
+  | nil => rfl
+  | cons a as ih => simp [ih]
+
+theorem Tree.infos_append (a b : Tree) : (a ++ b).infos = a.infos ++ b.infos := by
+  induction a with
+  | nil => rfl
+  | agg i k n _ ihn => simp [Tree.infos, ihn]
+  | task i x c n ihn => simp [Tree.infos, ihn]
+  | call i x c n ihn => simp [Tree.infos, ihn]
+  | iter k n _ ihn => simp [Tree.infos, ihn]
+
+theorem lookup_loc (var v : String) (rest : Env) : lookup ((var, v) :: rest) var = some v := by
+  simp [lookup, Assoc.get]
+
+theorem leafOut_infos (mk : Info → List String → Tree) (var v : String) (ctx : Ctx) (h : Hdr) (x : List Field)
+    (hmk : ∀ i ex, (mk i ex).infos = [i] ∧ (mk i ex).isNil = false) :
+    (leafOut mk (procHdr ctx [(var, v)] h x)).f.infos.map (fun i => lookup i.ownV var) =
+      if (leafOut mk (procHdr ctx [(var, v)] h x)).f.isNil then [] else [some v] := by
+  cases hh : procHdr ctx [(var, v)] h x with
+  | ok i c' ex =>
+    obtain ⟨_, v', hv⟩ := procHdr_ok hh
+    simp [leafOut, (hmk i ex).1, (hmk i ex).2, hv, lookup_loc]
+  | _ => simp [leafOut, Tree.infos, Tree.isNil, Out.empty]
+
+/-- One instance of an iterator's template (a single role) yields at most one role, and
+    that role has the iteration variable bound to the element in its own variables. -/
+theorem single_infos (ctx : Ctx) (var v : String) (body : Tmpl) (hs : single body = true) :
+    (proc ctx [(var, v)] body).f.infos.map (fun i => lookup i.ownV var) =
+      if (proc ctx [(var, v)] body).f.isNil then [] else [some v] := by
+  cases body with
+  | nil => simp [single] at hs
+  | iter r v2 b n => simp [single] at hs
+  | agg h kids n =>
+    cases n <;> simp [single] at hs
+    simp only [proc, Out.seq_empty]
+    cases hh : procHdr ctx [(var, v)] h [] with
+    | ok i c' ex =>
+      obtain ⟨_, v', hv⟩ := procHdr_ok hh
+      dsimp only
+      by_cases hf : (proc c' [] kids).f = .nil
+      · have : aggOut i (proc c' [] kids) = ⟨(proc c' [] kids).err, .nil, (proc c' [] kids).ev⟩ := by
+          unfold aggOut; rw [hf]
+        simp [this, Tree.infos, Tree.isNil]
+      · simp [aggOut_of_ne i _ hf, Tree.infos, Tree.isNil, hv, lookup_loc]
+    | _ => simp [Tree.infos, Tree.isNil, Out.empty]
+  | task h x c n =>
+    cases n <;> simp [single] at hs
+    simp only [proc, Out.seq_empty]
+    exact leafOut_infos _ var v ctx h x (by intros; exact ⟨rfl, rfl⟩)
+  | call h x c n =>
+    cases n <;> simp [single] at hs
+    simp only [proc, Out.seq_empty]
+    exact leafOut_infos _ var v ctx h x (by intros; exact ⟨rfl, rfl⟩)
+
+/-- The children of an expanded iterator, read off by their binding of the iteration
+    variable: exactly the range elements whose instance survived, in range order. -/
+theorem iter_bindings (ctx : Ctx) (var : String) (body : Tmpl) (hs : single body = true) (vals : List String) :
+    (vals.foldr (fun v acc => (proc ctx [(var, v)] body).seq acc) Out.empty).f.infos.map (fun i => lookup i.ownV var) =
+      (vals.filter fun v => !(proc ctx [(var, v)] body).f.isNil).map some := by
+  rw [fold_f]
+  induction vals with
+  | nil => rfl
+  | cons a as ih =>
+    simp only [List.foldr_cons, Tree.infos_append, List.map_append, ih, single_infos ctx var a body hs, List.filter_cons]
+    cases (proc ctx [(var, a)] body).f.isNil <;> simp
+
+/-! ## `TrimSpace` is idempotent, so a stored `enabled` is truthy iff the evaluated one was -/
+
+theorem dw_head {p : Char → Bool} : ∀ (l : List Char) (c : Char) (r : List Char), l.dropWhile p = c :: r → p c = false
+  | [], c, r, h => by simp at h
+  | a :: l, c, r, h => by
+    by_cases hp : p a = true
+    · simp [List.dropWhile, hp] at h; exact dw_head l c r h
+    · simp [List.dropWhile, hp] at h; obtain ⟨rfl, _⟩ := h; simpa using hp
+
+theorem dw_of_head {p : Char → Bool} {c : Char} (r : List Char) (h : p c = false) : (c :: r).dropWhile p = c :: r := by
+  simp [List.dropWhile, h]
+
+theorem dw_idem (p : Char → Bool) (l : List Char) : (l.dropWhile p).dropWhile p = l.dropWhile p := by
+  cases h : l.dropWhile p with
+  | nil => rfl
+  | cons c r => exact dw_of_head r (dw_head l c r h)
+
+def norm (l : List Char) : List Char := (trimL (trimL l).reverse).reverse
+
+theorem norm_idem (l : List Char) : norm (norm l) = norm l := by
+  unfold norm
+  generalize ha : trimL l = a
+  generalize hb : trimL a.reverse = b
+  have h2 : trimL b = b := by rw [← hb]; exact dw_idem _ _
+  have h1 : trimL b.reverse = b.reverse := by
+    cases hbr : b.reverse with
+    | nil => rfl
+    | cons c m =>
+      have hsplit : a.reverse = a.reverse.takeWhile isSpace ++ b := by
+        rw [← hb]; exact (List.takeWhile_append_dropWhile (p := isSpace) (l := a.reverse)).symm
+      have ha' : a = c :: (m ++ (a.reverse.takeWhile isSpace).reverse) := by
+        have := congrArg List.reverse hsplit
+        rw [List.reverse_reverse, List.reverse_append, hbr] at this
+        simpa using this
+      have hc : isSpace c = false := dw_head l c _ (by rw [← ha'] ; exact ha)
+      exact dw_of_head m hc
+  rw [h1, List.reverse_reverse, h2]
+
+theorem trim_idem (s : String) : trim (trim s) = trim s := by
+  have : ∀ t : String, trim t = String.ofList (norm t.toList) := fun _ => rfl
+  rw [this (trim s), this s, String.toList_ofList, norm_idem]
+
+theorem truthy_trim (s : String) : truthy (trim s) = truthy s := by
+  unfold truthy; rw [trim_idem]
+
+/-- Every role that is left in the tree carries an `enabled` that reads true/1. -/
+theorem proc_allEnabled (t : Tmpl) : ∀ (ctx : Ctx) (loc : Env), allEnabled (proc ctx loc t).f = true := by
+  have happ : ∀ a b : Tree, allEnabled (a ++ b) = (allEnabled a && allEnabled b) := by
+    intro a b
+    induction a with
+    | nil => simp [allEnabled]
+    | agg i k n _ ihn => simp [allEnabled, ihn, Bool.and_assoc]
+    | task i x c n ihn => simp [allEnabled, ihn, Bool.and_assoc]
+    | call i x c n ihn => simp [allEnabled, ihn, Bool.and_assoc]
+    | iter k n _ ihn => simp [allEnabled, ihn, Bool.and_assoc]
+  have hen : ∀ {ctx loc h x i c' ex}, procHdr ctx loc h x = .ok i c' ex → truthy i.enabled = true := by
+    intro ctx loc h x i c' ex hh
+    obtain ⟨⟨en, _, ht, hi⟩, _⟩ := procHdr_ok hh
+    rw [hi, truthy_trim, ht]
+  induction t with
+  | nil => intros; rfl
+  | agg h kids nx ihk ihn =>
+    intro ctx loc
+    simp only [proc, Out.seq_f, happ, ihn, Bool.and_true]
+    cases hh : procHdr ctx loc h [] with
+    | ok i c' ex =>
+      dsimp only
+      by_cases hf : (proc c' [] kids).f = .nil
+      · have : aggOut i (proc c' [] kids) = ⟨(proc c' [] kids).err, .nil, (proc c' [] kids).ev⟩ := by
+          unfold aggOut; rw [hf]
+        rw [this]; rfl
+      · simp [aggOut_of_ne i _ hf, allEnabled, hen hh, ihk c' []]
+    | _ => rfl
+  | task h x c nx ihn =>
+    intro ctx loc
+    simp only [proc, Out.seq_f, happ, ihn, Bool.and_true]
+    cases hh : procHdr ctx loc h x with
+    | ok i c' ex => simp [leafOut, allEnabled, hen hh]
+    | _ => rfl
+  | call h x c nx ihn =>
+    intro ctx loc
+    simp only [proc, Out.seq_f, happ, ihn, Bool.and_true]
+    cases hh : procHdr ctx loc h x with
+    | ok i c' ex => simp [leafOut, allEnabled, hen hh]
+    | _ => rfl
+  | iter r v b nx ihb ihn =>
+    intro ctx loc
+    simp only [proc, Out.seq_f, happ, ihn, Bool.and_true]
+    cases evalRange ctx.lookRange r with
+    | none => rfl
+    | some vals =>
+      have hfold : allEnabled (vals.foldr (fun v' acc => (proc ctx [(v, v')] b).seq acc) Out.empty).f = true := by
+        induction vals with
+        | nil => rfl
+        | cons a as iha => simp [happ, iha, ihb]
+      simp only [iterOut_f]
+      split
+      · simp [allEnabled, hfold]
+      · rfl
+
+theorem allEnabled_flatten (f : Tree) (h : allEnabled f = true) : allEnabled f.flatten = true := by
+  have happ : ∀ a b : Tree, allEnabled (a ++ b) = (allEnabled a && allEnabled b) := by
+    intro a b
+    induction a with
+    | nil => simp [allEnabled]
+    | agg i k n _ ihn => simp [allEnabled, ihn, Bool.and_assoc]
+    | task i x c n ihn => simp [allEnabled, ihn, Bool.and_assoc]
+    | call i x c n ihn => simp [allEnabled, ihn, Bool.and_assoc]
+    | iter k n _ ihn => simp [allEnabled, ihn, Bool.and_assoc]
+  induction f with
+  | nil => rfl
+  | agg i k n ihk ihn => simp [allEnabled] at h; simp [Tree.flatten, allEnabled, h, ihk, ihn]
+  | task i x c n ihn => simp [allEnabled] at h; simp [Tree.flatten, allEnabled, h, ihn]
+  | call i x c n ihn => simp [allEnabled] at h; simp [Tree.flatten, allEnabled, h, ihn]
+  | iter k n ihk ihn => simp [allEnabled] at h; simp [Tree.flatten, happ, h, ihk, ihn]
 
 end Load
